@@ -17,7 +17,7 @@ The property that the library is supposed to satisfy:
 
 Produce TWO independent, different changes to the library source (two separate patches, each applied to a clean checkout on its own) such that each change:
   1. breaks the property above (the library then really misbehaves with respect to the statement),
-  2. still imports/compiles and still passes the library's existing test suite (tests live in {wt}/test; run at least the test files relevant to the code you touched, e.g. `cd {wt} && PYTHONPATH={wt} /venv/bin/python -m pytest -q -x -p no:cacheprovider test/test_tensordict.py -k '<relevant>'` and any directly related files; a full run of test_tensordict.py takes ~10 minutes, run it in full at least once per final patch if you touched base.py/_td.py/utils.py/_lazy.py),
+  2. still imports/compiles and still passes the library's existing test suite (tests live in {wt}/test; run at least the test files relevant to the code you touched, e.g. `cd {wt} && PYTHONPATH={wt} /venv/bin/python -m pytest -q -x -p no:cacheprovider test/test_tensordict.py -k '<relevant>'` and any directly related files; a full run of test_tensordict.py takes ~10 minutes, run it in full at least once per final patch if you touched base.py/_td.py/utils.py/_lazy.py; these tests fail on the unchanged library too and do not count: test_vmap_functional, test_squeeze_with_none*, test_dtensor, test_h5 auto_batch_size, TestFCD memmap tests; tensordict arithmetic under torch.vmap raises 'Batching rule not implemented for aten::_foreach_*' in this torch version, that is not your doing),
   3. is realistic (the kind of slip a maintainer could make in a refactor or optimisation: an off-by-one, a dropped or weakened guard, a swapped argument, a wrong variable, a missing invalidation, a fast path that skips a step, two sites that are each fine alone but wrong together),
   4. needs something specific to manifest — a particular multi-step sequence of operations, an unusual but legal input, a particular interleaving/completion order, a crash or exception at a particular point, or two cooperating sites — NOT something ordinary use or the existing tests would expose at once.
 For each change write, in {wt}/out/: `patch1.diff` / `patch2.diff` (output of `git diff` against HEAD with only that change applied), `demo1.py` / `demo2.py` (a small self-contained program that exits 0 on the unchanged library and exits non-zero, printing what went wrong, when the corresponding patch is applied — it must demonstrate a violation of the PROPERTY as stated, not just a behaviour difference), and `meta1.json` / `meta2.json` with keys: "property" ("{pid}"), "summary" (one sentence: what the change does), "needs" (what specific input/sequence/schedule is needed for it to manifest), "tests_run" (the exact pytest commands you ran and their pass counts), "files_touched".
